@@ -4,7 +4,8 @@ Model of `UserTrackingManager` (aioslsk/user/manager.py:501-732) **with the two 
 `fixes/C15-lost-call-in-exit-window.patch` (the worker removes its own entry in the step in which it
 decides to return; the done-callback only removes the entry it belongs to) and
 `fixes/C15-swallowed-cancel-on-close.patch` (the retry task is cancelled without being awaited, so
-line 566 is no suspension point any more).
+line 566 is no suspension point any more). The second half of the file (`World`) models who makes the requests:
+session, friends list, transfer manager — with `fixes/C15-transfer-reason-kept-after-remove.patch`.
 
 One `step` transcribes what the code does between two points where a coroutine really suspends:
 
